@@ -413,11 +413,19 @@ pub fn replay_c05(v: &Value) -> Vec<Failure> {
             let answers = worker.ask(&["R".to_string(), format!("F {}", bits::hex(&a)), format!("F {}", bits::hex(&b))]);
             let theirs = answers.get(2).and_then(|t| t.lines().find(|l| l.starts_with("PAIR ")).map(|l| l.to_string()));
             let mine = crate::configs::pair_line_std(&a, &b);
-            if theirs != mine {
-                vec![("C05/no_std/pairing".to_string(), format!("this build gives `{}`, the alloc-only build gives `{}`", mine.unwrap_or_default(), theirs.unwrap_or_default()))]
-            } else {
-                vec![]
+            let raw = |f: &[u8]| report(bits::get(f, 32 + 22, 1) as u32, bits::get(f, 32 + 23, 17) as u32, bits::get(f, 32 + 40, 17) as u32);
+            let mut out = vec![];
+            if a.len() >= 11 && b.len() >= 11 {
+                let (ra, rb) = (raw(&a), raw(&b));
+                let want = format!("PAIR {:?} {:?}", get_position((&ra, &rb)), get_position((&rb, &ra)));
+                if mine.as_deref() != Some(want.as_str()) {
+                    out.push(("C05/frame_pairing".to_string(), format!("decoded from their frames the reports pair to `{}`, their CPR words pair to `{want}`", mine.clone().unwrap_or_else(|| "nothing (a report was refused)".into()))));
+                }
             }
+            if theirs != mine {
+                out.push(("C05/no_std/pairing".to_string(), format!("this build gives `{}`, the alloc-only build gives `{}`", mine.unwrap_or_default(), theirs.unwrap_or_default())));
+            }
+            out
         }
         Some("cold_start") => {
             let t = |k: &str| {
@@ -640,10 +648,14 @@ pub fn run_c05(ctx: &Ctx) -> ! {
         let mut worker = crate::configs::Worker::spawn();
         let n = ctx.tier.pick(12_000usize, 400_000);
         let mut bad: Option<(String, Value)> = None;
+        let mut bad_frame: Option<(String, Value)> = None;
+        let alt_codes = [0x5d0u64, 0x000, 0x583, 0x687, 0x20a, 0xfff, 0x010, 0xc38];
         let mk = |parity: u32, yz: u32, xz: u32| -> Vec<u8> {
             let mut me = [0u8; 7];
-            bits::set(&mut me, 1, 5, 11);
-            bits::set(&mut me, 9, 12, 0x5d0);
+            bits::set(&mut me, 1, 5, [11u64, 9, 18, 20, 22][(yz % 5) as usize]);
+            // (altitude codes incl. "not available", Gillham codes above 65 535 ft and exactly 0 ft:
+            // whatever the altitude, the report carries a position)
+            bits::set(&mut me, 9, 12, alt_codes[((yz ^ xz) % 8) as usize]);
             bits::set(&mut me, 22, 1, parity as u64);
             bits::set(&mut me, 23, 17, yz as u64);
             bits::set(&mut me, 40, 17, xz as u64);
@@ -670,6 +682,15 @@ pub fn run_c05(ctx: &Ctx) -> ! {
             for (i, (a, b)) in frames.iter().enumerate() {
                 let theirs = answers.get(3 * i + 2).and_then(|t| t.lines().find(|l| l.starts_with("PAIR ")).map(|l| l.to_string()));
                 let mine = crate::configs::pair_line_std(a, b);
+                // the frame entry point must hand both reports to the pairing: a refused report,
+                // or a report decoded with other CPR words, shows as a pairing that differs from
+                // the one computed on the raw words
+                let raw = |f: &[u8]| report(bits::get(f, 32 + 22, 1) as u32, bits::get(f, 32 + 23, 17) as u32, bits::get(f, 32 + 40, 17) as u32);
+                let (ra, rb) = (raw(a), raw(b));
+                let want = format!("PAIR {:?} {:?}", get_position((&ra, &rb)), get_position((&rb, &ra)));
+                if mine.as_deref() != Some(want.as_str()) && bad_frame.is_none() {
+                    bad_frame = Some((format!("the reports {} and {} decoded from their frames pair to `{}`, their CPR words pair to `{want}`", bits::hex(a), bits::hex(b), mine.clone().unwrap_or_else(|| "nothing (a report was refused)".into())), json!({"kind": "pair_nostd", "first": bits::hex(a), "second": bits::hex(b)})));
+                }
                 if theirs != mine && bad.is_none() {
                     bad = Some((format!("the pairing of {} and {}: this build gives `{}`, the alloc-only build gives `{}`", bits::hex(a), bits::hex(b), mine.clone().unwrap_or_default(), theirs.clone().unwrap_or_default()), json!({"kind": "pair_nostd", "first": bits::hex(a), "second": bits::hex(b)})));
                 }
@@ -681,6 +702,9 @@ pub fn run_c05(ctx: &Ctx) -> ! {
         st.class_n("pairing in the alloc-only build", done as u64);
         if let Some((msg, replay)) = bad {
             st.fail(Failure { sig: "C05/no_std/pairing".into(), msg, replay });
+        }
+        if let Some((msg, replay)) = bad_frame {
+            st.fail(Failure { sig: "C05/frame_pairing".into(), msg, replay });
         }
     }
     st.samples.push(json!({"kind":"cpr_nl","parity":0,"zone":8,"yz":70000,"meaning":"probe of even zone latitude 6*(8+70000/2^17) deg"}));
